@@ -334,6 +334,16 @@ def gen_misc(rng):
     for valid in (True, False):
         for _ in range(5):
             out.append(sweep(mbi([t_rsdp1(rng, valid), t_rsdp2(rng, valid)])))
+    # RSDP v2 whose own length reaches beyond the 36 RSDP bytes, with the byte sum over [8, 8+length) arranged to be 0
+    # (so only the length bound - not a lucky checksum mismatch - can make it invalid)
+    for length in list(range(33, 49)) + [52, 56, 64]:
+        for follow in (t_meminfo, t_cmdline):
+            region = bytearray(mbi([t_rsdp2(rng, False, length), follow(rng)]))
+            o = 8
+            if o + 8 + length <= len(region):
+                region[o + 40] = 0
+                region[o + 40] = (-sum(region[o + 8:o + 8 + length])) % 256
+                out.append(sweep(bytes(region)))
     for es in (0, 23, 24, 25, 48):
         body = u32(es) + u32(0) + rbytes(rng, 48)
         out.append(sweep(mbi([tag(6, body, rng=rng)])))
